@@ -51,6 +51,9 @@ def cases(tier, inst):
         gens = [P.stream_multisets(inst, 3, 3, cps=(1, 2), dts=(1,), iso=True)]
     else:
         gens.append(P.stream_multisets(inst, 3, 3, cps=(1,), dts=(1,), iso=False, min_n=3))
+    tiny = (inst[0], inst[1], 0.0004 * inst[2], inst[3])     # duties of a few hundredths: enthalpy changes near the display rounding
+    for ms in P.stream_multisets(tiny, 3, 2, cps=(1, 2), dts=(1,), iso=False):
+        yield {"streams": ms, "zones": ["A"] * len(ms), "uset": 1, "flags": [True, False, False], "inst": list(tiny)}
     for g in gens:
         for ms in g:
             n = len(ms)
